@@ -29,7 +29,7 @@ man = dict(
                   kind_free_text='python driver: content-hashed rebuild of harnesses from /repo working tree (g++ ASan+UBSan / -O2 / TSan, clang libFuzzer), '
                   'sharded execution with crash isolation, event-log monitors, known-findings matching, evidence writer')],
     checks=checks,
-    notes='Runtime monitoring and sanitizers only. See DESIGN.md; known_findings.json lists genuine defects of the pinned tree that are recorded rather than repaired.',
+    notes='Runtime monitoring and sanitizers only. See DESIGN.md; known_findings.json (same content in line format: known_findings.txt) lists the genuine defects of the pinned tree that are recorded rather than repaired (status open) and the repaired ones (status fixed, with the fix: commit).',
     not_applicable=NOT_APPLICABLE,
 )
 json.dump(man, open(os.path.join(V, 'MANIFEST.json'), 'w'), indent=1)
